@@ -74,6 +74,13 @@ func c04Random(rng *rand.Rand, n int, _ []string) {
 		in := sx.List(g.cfgStr(), sx.Int(g.expectSR), sx.Int(g.expectRR))
 		out := sx.List(statesStr(g, sts), defaultEncStr(t.DefaultEnc), sx.Ints(t.FinalStates), sx.Int(t.SR), sx.Int(t.RR), sx.Int(errKind(err)))
 		sx.Case("c03.tables", in, out)
+		// the same cells behind compressed tables, with and without defaultReduce: a nonassoc error must stay one
+		if err == nil && t.UsedLADepth == 0 {
+			for _, dr := range []bool{false, true} {
+				o := lalr.Optimize(t.DefaultEnc, g.nterms, len(t.RuleLen), dr)
+				sx.Case("c05.opt", sx.List(sx.Int(g.nterms), sx.Int(len(t.RuleLen)), sx.Bool(dr), defaultEncStr(t.DefaultEnc)), dispEncStr(o))
+			}
+		}
 		for _, v := range t.Lalr {
 			if v == -2 {
 				resolvedCells++
